@@ -489,7 +489,10 @@ ssize_t sim_recvfrom(int fd, void *buf, size_t n, int flags, struct sockaddr *sa
     memcpy(buf, d.data.data(), k);
     if (sa && sl) *sl = addr_to_sockaddr(d.src, sa, *sl);
     W.log(C_RECVFROM, fd, (long)k, 0, d.resp_id);
-    if (d.resp_id >= 0) { W.resps[(size_t)d.resp_id].read_times.push_back(W.now_us); W.resps[(size_t)d.resp_id].read_seqs.push_back(W.seq); }
+    if (d.resp_id >= 0) { W.resps[(size_t)d.resp_id].read_times.push_back(W.now_us); W.resps[(size_t)d.resp_id].read_seqs.push_back(W.seq); W.resps[(size_t)d.resp_id].read_api.push_back(W.api_seq);
+      const Resp &rr0 = W.resps[(size_t)d.resp_id];
+      (void)rr0;
+      if (W.on_read) W.on_read(W.resps[(size_t)d.resp_id], *f); }
     return (ssize_t)k;
   }
   // TCP
@@ -512,7 +515,7 @@ ssize_t sim_recvfrom(int fd, void *buf, size_t n, int flags, struct sockaddr *sa
   memcpy(buf, f->instream.data(), k);
   f->instream.erase(0, k);
   f->in_read += k;
-  while (!f->in_marks.empty() && f->in_marks.front().first <= f->in_read) { Resp &rr_ = W.resps[(size_t)f->in_marks.front().second]; rr_.read_times.push_back(W.now_us); rr_.read_seqs.push_back(W.seq); f->in_marks.pop_front(); }
+  while (!f->in_marks.empty() && f->in_marks.front().first <= f->in_read) { Resp &rr_ = W.resps[(size_t)f->in_marks.front().second]; rr_.read_times.push_back(W.now_us); rr_.read_seqs.push_back(W.seq); rr_.read_api.push_back(W.api_seq); f->in_marks.pop_front(); }
   if (k < n && !f->instream.empty()) W.bump("recv_short");
   W.log(C_RECVFROM, fd, (long)k, 0);
   return (ssize_t)k;
